@@ -984,7 +984,9 @@ static void DecodeCALLT(Word Index) {
         tSymbolFlags Flags;
 
         ArgStr[1].str.p_str[l - 1] = '\0';
-        AdrWord = EvalStrIntExpressionOffsWithFlags(&ArgStr[1], 1, UInt6, &OK, &Flags);
+        /* NEC: [addr5] is the table address 0040H..007EH, of which bits
+           5..1 are stored; the bare offset 00H..3EH remains accepted */
+        AdrWord = EvalStrIntExpressionOffsWithFlags(&ArgStr[1], 1, UInt7, &OK, &Flags);
         if (mFirstPassUnknown(Flags)) {
             AdrWord &= 0xfffe;
         }
